@@ -455,7 +455,7 @@ def run(ch: Checker) -> None:
              'ThreadlessPool._shutdown_workers does not signal and join all num_workers workers (calls %s, loops %s)' % (txt, rng))
     # ---------------- C19.8 nobody waits without having asked
     n8 = 0
-    for fn in prog.all_functions('proxy', include_inlined=True):
+    for fn in prog.all_functions('proxy'):          # private helpers are judged as part of their callers (they are inlined there)
         if fn.module.name.startswith(('proxy.testing', 'proxy.plugin')):
             continue
         joins8 = [c_ for c_ in walk_no_nested(fn.node) if isinstance(c_, ast.Call) and isinstance(c_.func, ast.Attribute) and c_.func.attr == 'join' and not c_.args and not c_.keywords
